@@ -7,6 +7,7 @@ import (
 	"fmt"
 	"sort"
 	"strconv"
+	"strings"
 	"unicode/utf8"
 
 	"github.com/welllog/golib/algz"
@@ -25,9 +26,10 @@ func init() {
 		Impl:       impl,
 		Check:      check,
 		NonTrivial: nonTrivial,
-		Rule: "one trie (1–6 patterns over {a,b,c,é,你,😀} sharing prefixes/suffixes/infixes, or 12–40 short patterns, or byte garbage) + 3–8 queries (match/findall/prefix/fuzzy); " +
+		Rule: "one trie (1–6 patterns over {a,b,c,é,你,😀} sharing prefixes/suffixes/infixes, or 12–40 short patterns, or byte garbage) + 3–8 queries (match/findall/prefix/fuzzy), in about 1 case of 3 (1 of 2 for the many-pattern streams) preceded by a structural `dump` of all nodes (path, size, isEnd, fail target); " +
 			"non-trivial = at least one findall whose text holds ≥2 occurrences that overlap or nest (naive scan), or a prefix query returning ≥2 results; distinct by hash of the case lines",
 		Classify: classify,
+		Facts:    facts,
 		Extras: []core.Extra{{
 			Name: "exhaustive-ab",
 			Run:  exhaustive,
@@ -76,6 +78,12 @@ func RunTrie(t *algz.Trie, hdr []string) string {
 }
 
 func stepOp(t *algz.Trie, tk []string) string {
+	if len(tk) == 1 && tk[0] == "dump" {
+		if !DumpAvailable() {
+			return "dump-unavailable"
+		}
+		return DumpTrie(t)
+	}
 	if len(tk) != 2 {
 		return "bad-op"
 	}
@@ -99,9 +107,22 @@ func stepOp(t *algz.Trie, tk []string) string {
 
 func impl(c core.Case) []string {
 	var t algz.Trie
+	cyc := ""
 	return core.RunOps(c,
-		func(hdr []string) string { return RunTrie(&t, hdr) },
-		func(tk []string) string { return stepOp(&t, tk) })
+		func(hdr []string) string {
+			o := RunTrie(&t, hdr)
+			if o == "ok" {
+				cyc = FailCycle(&t)
+			}
+			return o
+		},
+		func(tk []string) string {
+			if cyc != "" && !(len(tk) == 1 && tk[0] == "dump") {
+				// a query reaching that node would never return (and exhaust the memory)
+				return CycleWord + cyc
+			}
+			return stepOp(&t, tk)
+		})
 }
 
 // ---- the property's own predicate (naive byte scanning; no trie, no model)
@@ -244,7 +265,16 @@ func check(c core.Case, out []string) *core.Failure {
 		if out[i] == "dead" {
 			continue
 		}
+		if strings.HasPrefix(out[i], CycleWord) {
+			return &core.Failure{Key: "fail-cycle", Desc: fmt.Sprintf("after BuildFailureLinks of %s the fail chain of node %q never reaches the root (cycle): every query reaching that node does not terminate; op %d %q was not run", showBs(all), strings.TrimPrefix(out[i], CycleWord), i, c.Lines[i])}
+		}
 		tk := core.Toks(c.Lines[i])
+		if len(tk) == 1 && tk[0] == "dump" {
+			if key, desc := checkDump(all, out[i]); key != "" {
+				return &core.Failure{Key: key, Desc: fmt.Sprintf("op %d %q: %s", i, c.Lines[i], desc)}
+			}
+			continue
+		}
 		if len(tk) != 2 {
 			return &core.Failure{Key: "bad-output", Desc: "bad op line " + c.Lines[i]}
 		}
@@ -354,8 +384,35 @@ func classify(c core.Case, out []string) []string {
 	if out[0] == "panic" {
 		ls = append(ls, "panic")
 	}
+	if !DumpAvailable() {
+		ls = append(ls, "dump:unavailable")
+	}
 	for i := 1; i < len(c.Lines); i++ {
 		tk := core.Toks(c.Lines[i])
+		if len(tk) == 1 && tk[0] == "dump" && out[i] != "dead" && out[i] != "panic" {
+			_, nodes, nonRoot := ExpectedDump(all)
+			switch {
+			case nodes >= 40:
+				ls = append(ls, "dump:nodes>=40")
+			case nodes >= 10:
+				ls = append(ls, "dump:nodes>=10")
+			default:
+				ls = append(ls, "dump:nodes<10")
+			}
+			if nonRoot > 0 {
+				ls = append(ls, "dump:fail-to-non-root")
+			}
+			if g, w, _, _ := QueueGrowth(all); g > 0 {
+				ls = append(ls, "dump:queue-grew")
+				if w > 0 {
+					ls = append(ls, "dump:queue-grew-wrapped")
+				}
+			}
+			if ps.AnyInval {
+				ls = append(ls, "dump:invalid-byte-node")
+			}
+			continue
+		}
 		if len(tk) != 2 {
 			continue
 		}
@@ -509,6 +566,21 @@ func exhaustive(ctx *core.Ctx) (int, string, []core.ExtraFailure) {
 				continue
 			}
 			ps := NewPatSet(order)
+			if cyc := FailCycle(&t); cyc != "" {
+				if !seen["fail-cycle"] {
+					seen["fail-cycle"] = true
+					fails = append(fails, core.ExtraFailure{Failure: core.Failure{Key: "fail-cycle", Desc: "the fail chain of node " + cyc + " never reaches the root"}, Payload: []string{hdr, "dump"}})
+				}
+				continue
+			}
+			if DumpAvailable() {
+				evals++
+				o := core.Guard(func() string { return stepOp(&t, []string{"dump"}) })
+				if key, desc := checkDump(order, o); key != "" && !seen[key] {
+					seen[key] = true
+					fails = append(fails, core.ExtraFailure{Failure: core.Failure{Key: key, Desc: desc}, Payload: []string{hdr, "dump"}})
+				}
+			}
 			for _, text := range texts {
 				for _, op := range []string{"match", "findall"} {
 					evals++
@@ -527,6 +599,6 @@ func exhaustive(ctx *core.Ctx) (int, string, []core.ExtraFailure) {
 			}
 		}
 	})
-	note := fmt.Sprintf("all sets of ≤%d patterns of length 1–%d over {a,b} (%d sets, both insertion orders) × all texts of length ≤%d (%d): Match and FindAll against the naive scan; %d evaluations, %d failure kinds", maxPats, maxLen, sets, maxText, len(texts), evals, len(fails))
+	note := fmt.Sprintf("all sets of ≤%d patterns of length 1–%d over {a,b} (%d sets, both insertion orders) × all texts of length ≤%d (%d): Match and FindAll against the naive scan, and the node structure (dump) against the prefix closure / longest-proper-suffix computed from the patterns; %d evaluations, %d failure kinds", maxPats, maxLen, sets, maxText, len(texts), evals, len(fails))
 	return evals, note, fails
 }
